@@ -260,14 +260,7 @@ impl StateMonitor {
             max_paths: Some(tier.pick(200, 1500)),
             ..GenCfg::default()
         };
-        let facts = crate::gen::gen_facts(rng, &cfg).builder_view();
-        let src = match drive::via_builder(&facts, Some(rng), defaults) {
-            Ok(o) => o,
-            Err(e) => {
-                out.violate(self.prop, "construct_failed/sub_source", format!("{e}"));
-                return;
-            }
-        };
+        let mut facts = crate::gen::gen_facts(rng, &cfg).builder_view();
         let m = Model::new(&facts, defaults);
         let ids: Vec<u32> = m.ids.iter().copied().collect();
         // a root with descendants and 1..5 leaves below it
@@ -285,6 +278,28 @@ impl StateMonitor {
         }
         let k = rng.urange(1, 5);
         let leaves: Vec<u32> = (0..k).map(|_| *rng.pick(&below)).collect();
+        // records that meet the sub-ontology in exactly one term: the root, one leaf, the smallest and
+        // the largest id among root and leaves
+        if self.prop != "C01" {
+            let mut single: BTreeSet<u32> = [root, leaves[0]].into();
+            single.insert(*leaves.iter().chain([root].iter()).min().unwrap());
+            single.insert(*leaves.iter().chain([root].iter()).max().unwrap());
+            for (n, t) in single.iter().enumerate() {
+                let kind = n % 3;
+                let rid = 3_000_000 + n as u32;
+                if facts.recs[kind].iter().all(|r| r.id != rid) {
+                    facts.recs[kind].push(crate::facts::RecFact { id: rid, name: format!("only-on-{t}"), terms: vec![*t] });
+                }
+            }
+        }
+        let m = Model::new(&facts, defaults);
+        let src = match drive::via_builder(&facts, Some(rng), defaults) {
+            Ok(o) => o,
+            Err(e) => {
+                out.violate(self.prop, "construct_failed/sub_source", format!("{e}"));
+                return;
+            }
+        };
         out.case = Json::obj()
             .set("path", Json::s("sub_ontology"))
             .set("root", Json::u(u64::from(root)))
@@ -344,6 +359,18 @@ impl StateMonitor {
             }
             let om = Model::new(&own, false);
             if self.prop == "C02" {
+                // a record directly annotated to a retained term that is not a modifier term keeps that
+                // link in the result (so the record is there)
+                for k in 0..3 {
+                    for (rid, direct) in &m.direct[k] {
+                        let hit: Vec<u32> = direct.iter().copied().filter(|t| obs.terms.contains_key(t) && !m.is_modifier(*t)).collect();
+                        if !hit.is_empty() {
+                            out.check(obs.recs[k].contains_key(rid), "C02", &format!("{}_record_dropped/sub_ontology", KIND_NAMES[k]), || {
+                                format!("{} {rid} is directly annotated to the retained phenotype term(s) {hit:?} but is missing in sub_ontology({root}, {leaves:?})", KIND_NAMES[k])
+                            });
+                        }
+                    }
+                }
                 for (id, t) in &obs.terms {
                     for k in 0..3 {
                         let exp: Vec<u32> = om.links[k][id].iter().copied().collect();
